@@ -179,10 +179,11 @@ CLAIMS = {
                 'retrieval with that path on an object holding the member returns exactly that member and on an object without it '
                 'selects nothing (C16_member_addressable, C16_absent_key_selects_nothing, through the refinement theorem); the three '
                 'unescape routines invert the three escapings (C16_double_quoted_roundtrip, C16_single_quoted_roundtrip through the '
-                'byte state machine, C16_dot_roundtrip) and the escapings are injective (distinct keys never confused). PARTIAL for: '
-                'acceptance of the dot spelling and of names at inner positions, and the short escapes \\b \\t \\n \\f \\r. Tie: keys '
+                'byte state machine, C16_dot_roundtrip) and the escapings are injective (distinct keys never confused). the dot spelling $.k likewise for every non-empty key without control '
+                'characters (C16_dot_spelling_parses, C16_member_addressable_dot) and the three spellings agree on every object '
+                '(C16_spellings_agree). PARTIAL for: names at inner positions, and the short escapes \\b \\t \\n \\f \\r. Tie: keys '
                 'from all Unicode planes, controls, escape-like sequences, near-miss siblings, 3 spellings x 5 path positions vs direct '
-                'map lookup and vs the model; the text of key_path itself is sent too (the driver confirms it is the extracted key_path).',
+                'map lookup and vs the model; the texts of key_path and dot_path themselves are sent too (the driver confirms they are the extracted definitions).',
         'note': NOTE_COMMON + ' encoding/json string unquoting is modelled concretely in coq/Text.v.',
         'technique': 'Coq proof from the path text (PEG big-step derivation + token replay + refinement) + codec round-trip proofs '
                      '(induction, explicit fuel) + direct lookup oracle + correspondence'},
@@ -190,7 +191,7 @@ CLAIMS = {
         'text': 'PARTIAL. Proved: what a path selects does not depend on the text/connected-text fields of its nodes '
                 '(C18_values_text_independent, on the specification), so spellings parsed to trees equal up to texts select the same '
                 'values; lexical facts: `space` eats exactly the blanks and emits nothing, + sign and leading zeros do not change an '
-                'integer, quote styles name the same key, `.*`/`[*]` run the same action. Not proved: structural round trip for '
+                'integer, quote styles name the same key, `.*`/`[*]` run the same action. FROM THE PATH TEXT: for every non-empty name without control characters $["name"], $[\'name\'] and $.name are accepted and return the same results on every object or all fail (C18_name_spellings_agree). Not proved: structural round trip for '
                 'arbitrary paths and the same-error-step half. Tie: every generated AST in 2..6 spellings must agree on the real '
                 'library and with the model.',
         'note': NOTE_COMMON, 'technique': 'Coq proof on the specification + lexical lemmas on the regenerated grammar + spelling-group oracle'},
